@@ -462,6 +462,18 @@ fn adversarial(thorough: bool) -> Vec<Value> {
             "rule r { Resources.*.Type == Resources.*.Properties.X }\n",
             "rule r { Resources.*.Properties { X == 1 } }\n",
             "let n = Resources.*.Properties.X\nrule r { %n == 1 }\n",
+            "let v = 1\nrule r { Resources.*.Properties.X == %v }\n",
+            "let v = 1\nrule r { %v is_string\n Resources.*.Properties.X == 1 }\n",
+            "let v = [5, 6]\nrule r { Resources.*.Properties.X in %v }\n",
+            "rule r { Resources.*.Properties.X[*] == 1 }\n",
+            "rule r { Resources.*.Properties.X empty }\n",
+            "rule r { some Resources.*.Properties.Y exists }\n",
+            "rule p(x) { %x == 1 }\nrule r { p(Resources.*.Properties.X) <<called>> }\n",
+            "rule a { Resources.*.Properties.X == 1 }\nrule r {\n  a\n}\n",
+            "rule r when Resources exists { Resources.*.Properties.X == 1 or Resources.*.Properties.X == 3 }\n",
+            "rule r { count(Resources.*) == 0 }\n",
+            "rule r { Resources.*.Properties.X == /z/ }\n",
+            "rule r { Resources.*.Properties.X in r[5, 9] }\n",
         ];
         for res in resources {
             for name in names {
@@ -535,6 +547,16 @@ fn adversarial(thorough: bool) -> Vec<Value> {
             "rule r { variables.v == resource_changes[*].change.after.name }\n",
             "rule r { resource_changes[*].change.after { name == \"x\" } }\n",
             "let n = resource_changes[*].change.after.name\nrule r { %n == \"x\" }\n",
+            "let v = \"x\"\nrule r { resource_changes[*].change.after.name == %v }\n",
+            "let v = 1\nrule r { %v is_string\n resource_changes[*].change.after.name == \"x\" }\n",
+            "let v = [\"x\"]\nrule r { resource_changes[*].change.after.name in %v }\n",
+            "rule r { resource_changes[*].change.after.name empty }\n",
+            "rule p(x) { %x == \"x\" }\nrule r { p(resource_changes[*].change.after.name) <<called>> }\n",
+            "rule a { resource_changes[*].change.after.name == \"x\" }\nrule r {\n  a\n}\n",
+            "rule r { resource_changes[*].change.after.name == \"x\" or resource_changes[*].change.after.name == \"z\" }\n",
+            "rule r { resource_changes[*].change.after.name == /z/ }\n",
+            "rule r { count(resource_changes[*]) == 0 }\n",
+            "rule r { resource_changes[ address == \"aws_s3_bucket.b\" ].change.after.name == \"x\" }\n",
         ];
         let mut docs: Vec<String> = vec![];
         for e in entries {
